@@ -166,7 +166,7 @@ func runCheck(id, tier string, o runOpts) int {
 	for _, ob := range und {
 		fmt.Fprintf(os.Stderr, "UNDECIDED %s %s: %s %s\n", ob.Rule, ob.Construct, ob.Pos, ob.Detail)
 	}
-	if len(und) > 0 {
+	if len(und) > 0 && exit == 0 {
 		exit = 2 // a check that cannot decide is broken; this is never reported as a violation
 	}
 	var mres []mutantResult
